@@ -27,15 +27,25 @@ def _plain(e, first, second):
                e.h0.fld("is_starred", first) == 0, e.h0.fld("is_starred", second) == 0)
 
 
+def _local(e, name):
+    from dv.pyfe import StaleContract
+    v = e.vars.get(name)
+    if v is None:
+        raise StaleContract("the fragment no longer binds a local called %r (the contract reads the decision off it)" % name)
+    return v
+
+
 def _post_enum(e):
-    if "enumerate_target" not in e.vars:
+    if "$fell_through" not in e.vars:
         return z3.BoolVal(True)                 # `return node`: the loop is left alone
-    return _plain(e, e.vars["enumerate_target"].addr, e.vars["iterable_target"].addr)
+    return _plain(e, _local(e, "enumerate_target").addr, _local(e, "iterable_target").addr)
 
 
 def _post_dict(e):
-    kt = e.vars.get("key_target")
-    vt = e.vars.get("value_target")
+    if "$fell_through" not in e.vars:
+        return z3.BoolVal(True)                 # `return node`: the loop is left alone
+    kt = _local(e, "key_target")
+    vt = _local(e, "value_target")
     from dv.pyfe import PRef
     if not (isinstance(kt, PRef) and isinstance(vt, PRef)):
         return z3.BoolVal(True)                 # one target only (keys or values), a tuple target, or `return node`
